@@ -615,6 +615,21 @@ func (e *Exec) extractOracle(extra ...*smt.Term) (map[string]interface{}, error)
 			e.Notes["a model exists only with two distinct atoms holding equal bytes (extensionality not derivable on this path): the witness/counterexample may not replay"] = true
 		}
 	}
+	// prefer small numbers (they are what the exact parts of the stubs - decimal strings, counters -
+	// are about, and they read better in a report); dropped when the path needs large ones
+	{
+		var smallNum []*smt.Term
+		for _, ns := range p.nondets {
+			if ns.Kind == "u64" && ns.Term != nil && ns.Term.Sort.Kind == smt.KBV && ns.Term.Sort.Width == 64 {
+				smallNum = append(smallNum, smt.ULe(ns.Term, smt.Const(99, 64)))
+			}
+		}
+		if len(smallNum) > 0 {
+			if r, _, err := e.solve(append(append([]*smt.Term{}, extra...), smallNum...), nil); err == nil && r == smt.Sat {
+				extra = append(append([]*smt.Term{}, extra...), smallNum...)
+			}
+		}
+	}
 	// prefer small models: bound every input length, relax if unsat
 	for _, lim := range []uint64{2, 8, 40} {
 		var small []*smt.Term
